@@ -268,3 +268,48 @@ func VerifC07_NoRouter() {
 	}
 	zzverif.Assert(sess.Status() == flows.SessionStatusCompleted, "session did not complete")
 }
+
+// VerifC07_RepeatedResult: two switch routers in one run save the same result
+// name, with different operands and arbitrary test outcomes (so that the
+// second routing may save exactly the value and category the first saved):
+// after the run the result is the one the *second* routing prescribes — the
+// category of its first matching case or the default, the match text (the
+// operand for the default) as value and its own operand as input.
+// cover: same-value-and-category, different-category
+func VerifC07_RepeatedResult() {
+	sa := verifNewAssets()
+	mk := func(n int, operand string, dest flows.NodeUUID) flows.Node {
+		id := func(s string) string { return string(verifNodeUUID(0, n)) + s }
+		cats := []flows.Category{
+			routers.NewCategory(flows.CategoryUUID(id("c0")), "Match", verifExitUUID(0, n, 0)),
+			routers.NewCategory(flows.CategoryUUID(id("c1")), "Other", verifExitUUID(0, n, 1)),
+		}
+		cs := []*routers.Case{routers.NewCase(uuids.UUID(id("k0")), "verif_test", nil, flows.CategoryUUID(id("c0")))}
+		router := routers.NewSwitch(nil, "Color", cats, operand, cs, flows.CategoryUUID(id("c1")))
+		return definition.NewNode(verifNodeUUID(0, n), nil, router, []flows.Exit{definition.NewExit(verifExitUUID(0, n, 0), dest), definition.NewExit(verifExitUUID(0, n, 1), dest)})
+	}
+	sa.add(verifFlowOf(0, mk(0, "first operand", verifNodeUUID(0, 1)), mk(1, "second operand", "")))
+	verifLazyOutcomes = true
+	verifOutcomeRecord = nil
+	sess, _, err := verifEngine(10, 10).NewSession(sa, verifManualTrigger(sa, verifContact(sa)))
+	zzverif.Assert(err == nil, "NewSession returned an error")
+	zzverif.Assert(len(verifOutcomeRecord) == 2, "setup: both routers were not evaluated")
+	want := func(outcome int, operand string) (string, string) {
+		if outcome == 1 {
+			return "Match", "m"
+		}
+		return "Other", operand
+	}
+	c1, v1 := want(verifOutcomeRecord[0], "first operand")
+	c2, v2 := want(verifOutcomeRecord[1], "second operand")
+	if c1 == c2 && v1 == v2 {
+		zzverif.Cover("same-value-and-category")
+	} else if c1 != c2 {
+		zzverif.Cover("different-category")
+	}
+	res := sess.Runs()[0].Results().Get("color")
+	zzverif.Assert(res != nil, "no result was saved")
+	zzverif.Assert(res.Category == c2 && res.Value == v2, "the saved result is not the one the last routing prescribes")
+	zzverif.Assert(res.Input == "second operand", "the saved result does not have the last routing's operand as input")
+	zzverif.Assert(res.NodeUUID == verifNodeUUID(0, 1), "the saved result does not name the node that saved it last")
+}
